@@ -721,8 +721,15 @@ func (o *Oracle) stepRead(r wire.Req) *Fail {
 		if f != nil {
 			return f
 		}
-		if int64(wire.I32(b)) != m {
-			return fail("read-announce", v.Kind(), "READ n=%d off=%d on a %d-byte %s announced %d, want %d", r.N, r.Off, v.Size(), v.Kind(), wire.I32(b), m)
+		if got := int64(wire.I32(b)); got != m {
+			// the count is wrong (the object's size is C02's subject); whether the response is at least
+			// self-consistent - the announced bytes do follow - is a framing question of its own
+			if got > 0 && got <= int64(r.N) {
+				if _, f := o.readFull(r.Op, int(got), fmt.Sprintf("READ body of the %d announced bytes (the object holds %d there)", got, m)); f != nil {
+					return f
+				}
+			}
+			return fail("read-announce", v.Kind(), "READ n=%d off=%d on a %d-byte %s announced %d, want %d", r.N, r.Off, v.Size(), v.Kind(), got, m)
 		}
 		if f := o.expectBytes(r.Op, v, int64(r.Off), m, fmt.Sprintf("READ n=%d off=%d", r.N, r.Off)); f != nil {
 			return f
